@@ -294,6 +294,8 @@ def make_instance(rng, idx, contingent, n, m, d, stats):
     family = "neg" if (idx % 10 in (2, 6, 9) or idx % 20 == 14) else None     # 7 of 20 quick problems (2 contingent)
     if idx % 10 == 3 or idx % 20 in (7, 11):
         family = "relost"                                                       # 4 of 20 (1 contingent)
+    if idx % 20 in (4, 8, 15):
+        family = "altchain"                                                     # 3 of 20 (1 contingent)
     while True:
         gen = KGen(rng, contingent=contingent, family=family)
         stats["generated"] += 1
